@@ -579,6 +579,27 @@ func C19Main(jobJSON, corpusFile string) int {
 				batch = append(batch, base[:l])
 			}
 			g.batch(batch, fmt.Sprintf("truncations of corpus register #%d", ri))
+			// a small fixed-width field followed by nothing: every prefix of the register (up to 160 bytes) whose last two
+			// bytes are replaced by 0, 1, 2 and 0xffff, and whose last byte by 0 / 1 (a count of children or elements that
+			// says "none" / "one" / "very many" with the register ending right after the count)
+			batch = nil
+			for l := 1; l <= len(base) && l <= 160; l++ {
+				for _, v := range []byte{0, 1} {
+					if base[l-1] != v {
+						m := append([]byte(nil), base[:l]...)
+						m[l-1] = v
+						batch = append(batch, m)
+					}
+				}
+				if l >= 2 {
+					for _, v := range [][2]byte{{0, 0}, {0, 1}, {0, 2}, {0xff, 0xff}} {
+						m := append([]byte(nil), base[:l]...)
+						m[l-2], m[l-1] = v[0], v[1]
+						batch = append(batch, m)
+					}
+				}
+			}
+			g.batch(batch, fmt.Sprintf("prefixes of corpus register #%d ending in a small / huge fixed-width count", ri))
 			// substitutions
 			for off := 0; off < len(base); off++ {
 				batch = batch[:0]
